@@ -79,3 +79,340 @@ class PrvCkd:
             return
         yield from child_clauses(c, I, out, repo().bip32.PrvKeyNode,
                                  seg(ki, 32), seg(IRv, 32))
+
+
+# ======================================================================================= helpers
+from . import summaries as SUM          # noqa: E402
+from pyvc.logic import OBytes, ite     # noqa: E402
+
+
+def node_point(n):
+    """public point of a symbolic node description"""
+    return U.ecmul(n.k) if n.private else n.pt
+
+
+def spec_parent_fp(c, n):
+    """parent fingerprint per BIP32 for the node description n"""
+    if n.parent is not None:
+        po = c.deref(n.parent)
+        if issubclass(po.cls, repo().bip32.PrvKeyNode):
+            ppt = U.ecmul(n.parent_k)
+        else:
+            ok, ppt = U.sec_parse(po.fields["key"])
+        return fingerprint_of_point(ppt)
+    if n.ppf is not None:
+        return as_rope(n.ppf)
+    return Rope.of(b"\x00" * 4)
+
+
+def spec_is_master(n):
+    return land(n.depth == 0, n.index == 0, n.parent is None)
+
+
+def spec_xkey_payload(c, n, version, keydata):
+    fp = spec_parent_fp(c, n)
+    master = spec_is_master(n)
+    fpv = ite(master, 0, fp.be())
+    return seg(version, 4) + seg(n.depth, 1) + seg(fpv, 4) + seg(n.index, 4) + as_rope(n.cc) + keydata
+
+
+def mk_node_contracts():
+    for private in (True, False):
+        tag = "Prv" if private else "Pub"
+        mk = sym_prv_node if private else sym_pub_node
+
+        class Fingerprint:
+            """C01: fingerprint = first 4 bytes of HASH160(serP(K))"""
+            target = "btc_hd_wallet.bip32.PubKeyNode.fingerprint"
+            props = ("C01", "C07", "C13")
+
+            def inputs(self, B, mk=mk):
+                ref, n = mk(B, "self", with_parent=False)
+                return [ref], {}, NS(n=n)
+
+            def post(self, c, I, out):
+                yield "ensures.returns", out.returned
+                if out.returned:
+                    yield "ensures.hash160_serP_first4", eq(out.value, fingerprint_of_point(node_point(I.n)))
+        Fingerprint.__name__ = "Fingerprint" + tag
+        CONTRACTS.append(Fingerprint())
+
+        class ParentFingerprint:
+            target = "btc_hd_wallet.bip32.PubKeyNode.parent_fingerprint"
+            props = ("C01", "C07", "C13")
+
+            def inputs(self, B, mk=mk):
+                ref, n = mk(B, "self", with_parent=True)
+                return [ref], {}, NS(n=n)
+
+            def post(self, c, I, out):
+                yield "ensures.returns", out.returned
+                if out.returned:
+                    yield "ensures.derived_parsed_or_zero", eq(out.value, spec_parent_fp(c, I.n))
+        ParentFingerprint.__name__ = "ParentFingerprint" + tag
+        CONTRACTS.append(ParentFingerprint())
+
+        class Serialize:
+            """C01/C07: 78-byte layout ver4|depth1|fp4|index4|chain32|key33"""
+            target = "btc_hd_wallet.bip32.PubKeyNode._serialize"
+            props = ("C01", "C07", "C13", "C16")
+
+            def inputs(self, B, mk=mk):
+                ref, n = mk(B, "self", with_parent=True, depth_hi=None)
+                version = B.int("version")
+                key = B.bytes("keydata", 33)
+                return [ref], dict(key=key, version=version), NS(n=n, version=version, keydata=key)
+
+            def post(self, c, I, out):
+                n = I.n
+                ok = land(I.version >= 0, I.version < 2 ** 32, n.depth >= 0, n.depth < 256)
+                yield "raises.iff_field_overflow", iff(out.raised, lnot(ok))
+                if out.returned:
+                    yield "ensures.layout78", eq(out.value, spec_xkey_payload(c, n, I.version, I.keydata))
+        Serialize.__name__ = "Serialize" + tag
+        CONTRACTS.append(Serialize())
+
+        class SerializePublic:
+            """C07: the public serialisation carries serP(K) as its last 33 bytes and the public version"""
+            target = "btc_hd_wallet.bip32.PubKeyNode.serialize_public"
+            props = ("C01", "C07", "C16")
+
+            def inputs(self, B, mk=mk):
+                ref, n = mk(B, "self", with_parent=True, depth_hi=256)
+                vc = B.case("version_given", 2)
+                version = B.int("version", 0, 2 ** 32) if vc else None
+                return [ref], dict(version=version), NS(n=n, version=version)
+
+            def post(self, c, I, out):
+                n = I.n
+                R = repo()
+                defv = ite(n.testnet, 0x043587CF, 0x0488B21E)
+                v = defv if I.version is None else I.version
+                yield "ensures.returns", out.returned
+                if out.returned:
+                    exp = spec_xkey_payload(c, n, v, serP(node_point(n)))
+                    yield "ensures.layout78_public", eq(out.value, exp)
+                    if n.private:
+                        yield "ensures.no_private_scalar_segment", not as_rope(out.value).mentions(n.k) \
+                            or _only_under_ecmul(as_rope(out.value), n.k)
+        SerializePublic.__name__ = "SerializePublic" + tag
+        CONTRACTS.append(SerializePublic())
+
+        class ExtendedPublicKey:
+            target = "btc_hd_wallet.bip32.PubKeyNode.extended_public_key"
+            props = ("C01", "C07", "C16")
+
+            def inputs(self, B, mk=mk):
+                ref, n = mk(B, "self", with_parent=True, depth_hi=256)
+                vc = B.case("version_given", 2)
+                version = B.int("version", 0, 2 ** 32) if vc else None
+                return [ref], dict(version=version), NS(n=n, version=version)
+
+            def post(self, c, I, out):
+                n = I.n
+                defv = ite(n.testnet, 0x043587CF, 0x0488B21E)
+                v = defv if I.version is None else I.version
+                yield "ensures.returns", out.returned
+                if out.returned:
+                    exp = SUM.b58chk(spec_xkey_payload(c, n, v, serP(node_point(n))))
+                    yield "ensures.base58check_of_layout", eq(out.value, exp)
+        ExtendedPublicKey.__name__ = "ExtendedPublicKey" + tag
+        CONTRACTS.append(ExtendedPublicKey())
+
+
+def _only_under_ecmul(rope, k):
+    """the private scalar may occur in a public serialisation only as the argument of k*G"""
+    kid = k.get_id()
+
+    def walk(e, under):
+        if e.get_id() == kid:
+            return under
+        if z3.is_app(e) and e.decl().name() == "ecmul":
+            return all(walk(ch, True) for ch in e.children())
+        return all(walk(ch, under) for ch in e.children())
+    return all((not is_sym(v)) or walk(v, False) for v, _, _ in rope.segs)
+
+
+mk_node_contracts()
+
+
+@contract
+class PrivateKeyProp:
+    """C01: PrvKeyNode.private_key strips the 00 pad of the 33-byte form"""
+    target = "btc_hd_wallet.bip32.PrvKeyNode.private_key"
+    props = ("C01", "C09")
+
+    def inputs(self, B):
+        ref, n = sym_prv_node(B, "self", with_parent=False)
+        return [ref], {}, NS(n=n)
+
+    def post(self, c, I, out):
+        yield "ensures.returns", out.returned
+        if out.returned:
+            o = c.deref(out.value)
+            yield "ensures.k_is_32_bytes_of_scalar", eq(o.fields.get("k"), seg(I.n.k, 32))
+            K = c.deref(o.fields["K"]).fields["K"]
+            yield "ensures.K_is_kG", K.f["pt"].sym_eq(U.ecmul(I.n.k))
+
+
+@contract
+class SerializePrivate:
+    target = "btc_hd_wallet.bip32.PrvKeyNode.serialize_private"
+    props = ("C01", "C07", "C16")
+
+    def inputs(self, B):
+        ref, n = sym_prv_node(B, "self", with_parent=True, depth_hi=256)
+        vc = B.case("version_given", 2)
+        version = B.int("version", 0, 2 ** 32) if vc else None
+        return [ref], dict(version=version), NS(n=n, version=version)
+
+    def post(self, c, I, out):
+        n = I.n
+        defv = ite(n.testnet, 0x04358394, 0x0488ADE4)
+        v = defv if I.version is None else I.version
+        yield "ensures.returns", out.returned
+        if out.returned:
+            exp = spec_xkey_payload(c, n, v, Rope.of(b"\x00") + seg(n.k, 32))
+            yield "ensures.layout78_private", eq(out.value, exp)
+
+
+@contract
+class ExtendedPrivateKey:
+    target = "btc_hd_wallet.bip32.PrvKeyNode.extended_private_key"
+    props = ("C01", "C07", "C16")
+
+    def inputs(self, B):
+        ref, n = sym_prv_node(B, "self", with_parent=True, depth_hi=256)
+        vc = B.case("version_given", 2)
+        version = B.int("version", 0, 2 ** 32) if vc else None
+        return [ref], dict(version=version), NS(n=n, version=version)
+
+    def post(self, c, I, out):
+        n = I.n
+        defv = ite(n.testnet, 0x04358394, 0x0488ADE4)
+        v = defv if I.version is None else I.version
+        yield "ensures.returns", out.returned
+        if out.returned:
+            exp = SUM.b58chk(spec_xkey_payload(c, n, v, Rope.of(b"\x00") + seg(n.k, 32)))
+            yield "ensures.base58check_of_layout", eq(out.value, exp)
+
+
+@contract
+class PubCkd:
+    """C02/C18: PubKeyNode.ckd == BIP32 CKDpub; hardened refused before any key material is used"""
+    target = "btc_hd_wallet.bip32.PubKeyNode.ckd"
+    props = ("C02", "C13", "C14", "C16", "C18")
+
+    def inputs(self, B):
+        ref, n = sym_pub_node(B, "self")
+        index = B.int("index")
+        return [ref, index], {}, NS(n=n, index=index)
+
+    def modifies(self, c, I):
+        return {(I.n.children.oid, "items")}
+
+    def post(self, c, I, out):
+        idx = I.index
+        n = I.n
+        hardened = idx >= HARD
+        neg = idx < 0
+        data = as_rope(n.key) + seg(idx, 4)
+        H = U.hmac512(n.cc, data)
+        IL = H.slice(0, 32).be()
+        IR = H.slice(32, 64)
+        Ki = U.ptadd(U.ecmul(IL), n.pt)
+        invalid = lor(IL >= N, Ki.sym_eq(U.inf()))
+        yield "raises.hardened_refused", implies(hardened, out.raised)
+        yield "raises.negative_index", implies(neg, out.raised)
+        yield "raises.IL_ge_n", implies(land(lnot(hardened), lnot(neg), IL >= N), out.raised)
+        yield "raises.point_at_infinity", implies(land(lnot(hardened), lnot(neg), IL < N, IL > 0, Ki.sym_eq(U.inf())), out.raised)
+        # A-PRF0: with the ecdsa back end IL == 0 is also rejected (DESIGN §3 C02)
+        yield "raises.only_if_refused_or_invalid", implies(out.raised, lor(hardened, neg, invalid, IL == 0))
+        if out.raised:
+            yield "ensures.no_child_appended_on_error", no_append_clause(c, I)
+            return
+        yield from child_clauses(c, I, out, repo().bip32.PubKeyNode, serP(Ki), IR)
+
+
+@contract
+class MasterKey:
+    """C03/C18: master key = halves of HMAC-SHA512("Bitcoin seed", seed); IL = 0 or >= n is an error;
+    the network flag does not influence key material"""
+    target = "btc_hd_wallet.bip32.PrvKeyNode.master_key"
+    props = ("C03", "C16", "C18")
+
+    def inputs(self, B):
+        seed = OBytes.sym("seed")
+        testnet = B.bool("testnet")
+        R = repo()
+        return [R.bip32.PrvKeyNode], dict(bip39_seed=seed, testnet=testnet), NS(seed=seed, testnet=testnet)
+
+    def post(self, c, I, out):
+        H = U.hmac512(b"Bitcoin seed", I.seed)
+        IL = H.slice(0, 32)
+        IR = H.slice(32, 64)
+        ilv = IL.be()
+        yield "raises.IL_zero", implies(ilv == 0, out.raised)
+        yield "raises.IL_ge_n", implies(ilv >= N, out.raised)
+        yield "raises.only_if_invalid", implies(out.raised, lor(ilv == 0, ilv >= N))
+        if out.returned:
+            v = out.value
+            isnew = isinstance(v, Ref) and v.oid not in c.entry_snapshot
+            yield "ensures.new_node", isnew
+            if isnew:
+                o = c.deref(v)
+                yield "ensures.class", o.cls is repo().bip32.PrvKeyNode
+                yield "ensures.key_is_IL", eq(o.fields.get("key"), IL)
+                yield "ensures.chain_code_is_IR", eq(o.fields.get("chain_code"), IR)
+                yield "ensures.depth0", eq(o.fields.get("depth"), 0)
+                yield "ensures.index0", eq(o.fields.get("index"), 0)
+                yield "ensures.no_parent", o.fields.get("parent") is None
+                yield "ensures.no_parsed_fp", o.fields.get("parsed_parent_fingerprint") is None
+                yield "ensures.testnet_flag", eq(o.fields.get("testnet"), I.testnet)
+                # non-interference: key material does not mention the network flag
+                yield "noninterference.testnet", not _mentions(o.fields.get("key"), I.testnet) and \
+                    not _mentions(o.fields.get("chain_code"), I.testnet)
+
+
+def _mentions(v, term):
+    from pyvc.logic import simplify_native
+    v = simplify_native(v)
+    if isinstance(v, Rope):
+        return v.mentions(term)
+    return False
+
+
+@contract
+class Parse_:
+    """C07: _parse slices the stream 4/1/4/4/32/33"""
+    target = "btc_hd_wallet.bip32.PubKeyNode._parse"
+    props = ("C07",)
+
+    def inputs(self, B):
+        R = repo()
+        cls = [R.bip32.PubKeyNode, R.bip32.PrvKeyNode][B.case("cls", 2)]
+        payload = B.bytes("ver", 4) + B.bytes("depth", 1) + B.bytes("fp", 4) + B.bytes("index", 4) + \
+            B.bytes("cc", 32) + B.bytes("key", 33)
+        from pyvc.engine import HBytesIO
+        s = B.ctx.alloc(HBytesIO(payload))
+        testnet = B.bool("testnet")
+        return [cls, s], dict(testnet=testnet), NS(cls=cls, payload=payload, testnet=testnet, s=s)
+
+    def modifies(self, c, I):
+        return {(I.s.oid, "pos")}
+
+    def post(self, c, I, out):
+        p = I.payload
+        yield "ensures.returns", out.returned
+        if out.returned:
+            o = c.deref(out.value)
+            yield "ensures.class", o.cls is I.cls
+            yield "ensures.version", eq(o.fields.get("parsed_version"), p.slice(0, 4).be())
+            yield "ensures.depth", eq(o.fields.get("depth"), p.slice(4, 5).be())
+            yield "ensures.fingerprint", eq(o.fields.get("parsed_parent_fingerprint"), p.slice(5, 9))
+            yield "ensures.index", eq(o.fields.get("index"), p.slice(9, 13).be())
+            yield "ensures.chain_code", eq(o.fields.get("chain_code"), p.slice(13, 45))
+            yield "ensures.key", eq(o.fields.get("key"), p.slice(45, 78))
+            yield "ensures.testnet", eq(o.fields.get("testnet"), I.testnet)
+            yield "ensures.no_parent", o.fields.get("parent") is None
+            yield "ensures.stream_consumed", c.deref(I.s).pos == 78
